@@ -66,6 +66,10 @@ type Disk struct {
 	// HookTask, when set, makes in-process simhook points (scan legs,
 	// merge/combine parents) scheduling points of that task.
 	HookTask string
+	// ParkAllHooks makes them scheduling points whether or not HookTask is
+	// set (engines in which one client runs at a time; with several
+	// clients the observer's reads would be interleaved with them).
+	ParkAllHooks bool
 	// Open (not yet closed) metadata puts, for "no metadata put is open"
 	// instants.
 	openMetaPuts int
@@ -172,7 +176,18 @@ func (d *Disk) hook(site string, key uint64) {
 		d.mu.Lock()
 		task := d.HookTask
 		d.mu.Unlock()
-		if task != "" && d.Sched != nil {
+		if task == "" && !d.ParkAllHooks {
+			return
+		}
+		if task == "" {
+			// Outside the query phases too: a rewrite (delete-where,
+			// compaction) merges scan legs, and the order in which they
+			// deliver decides tie order and with it where the output is
+			// cut into objects; left to the Go scheduler the run would
+			// not replay.
+			task = "op"
+		}
+		if d.Sched != nil {
 			// Each (site, key) is its own task so that run-to-completion
 			// policies still alternate between legs.
 			d.Sched.Yield(fmt.Sprintf("%s:%s#%d", task, site, key), site, key)
